@@ -68,7 +68,7 @@ const REAL_AGENT: [&str; 3] = ["stun_proto::agent::StunAgent (send, poll, handle
 const SIM_AGENT: [&str; 4] = ["clock (nanosecond offsets from one anchor Instant)", "application driving the agent (seeded operation mix)", "peer / attacker producing genuine, forged, replayed, truncated responses", "poll scheduler (exact, early, late, stalled, clock jump)"];
 const REF_AGENT: [&str; 2] = ["transaction model (sim/src/model_tx.rs)", "reference codec: HMAC/CRC/TLV walk (sim/src/refcodec.rs)"];
 
-const RULE_AGENT: &str = "batch `agent`: each evaluation is one seeded history of 5..70 (thorough 5..200) agent calls plus the drain to quiescence, checked against the transaction model after every call; a run is non-trivial when it had >=2 transactions outstanding at once or at least one fired fault (late/stalled poll, forged/replayed/duplicate/unknown response, truncation, duplicate id, cancel); distinct = distinct FNV-1a hash of the full event log (every call, reply, simulated instant and query result). Batches `world`: each evaluation is one discrete-event run of 1..3 clients (real StunAgents, one transaction model each), a server running stund.rs's logic on real library code, an attacker, UDP links (drop, duplicate, delay/reorder, corrupt, truncate, coalesce, NAT, partition/heal) and RFC 4571-framed TCP streams through real TcpBuffers (segmentation, stalls, connection cut); faults stop at a drawn quiescence time, after which every transaction must complete within its schedule; profile `calm` is the same world without network faults or attacker";
+const RULE_AGENT: &str = "batch `agent`: each evaluation is one seeded history of 5..70 (thorough 5..200) agent calls plus the drain to quiescence, checked against the transaction model after every call; one run in 25 is a scale run (100..400 calls, thorough up to 1200; 9..40, one time in ten 250..320, concurrent transactions; 12..48, one time in eight about 330, peers; bursts of sends and of incoming requests; floods of 20..300 forged responses; exactly 2^8 / 2^16 (+-1) state-changing calls between two adjacent polls; with many transactions or peers the per-call query sweep covers what the call touched plus a rotating window, and every 16th sweep everything); one run in six starts its clock at 1 ns, 2^32 ms, 2^53 ns, 10^9 s or one day; one run in 20 has a TRACE-level tracing subscriber installed; when checking C07 a twin agent is handed every call except the dropped responses and must answer identically; a run is non-trivial when it had >=2 transactions outstanding at once or at least one fired fault (late/stalled poll, forged/replayed/duplicate/unknown response, truncation, duplicate id, cancel); distinct = distinct FNV-1a hash of the full event log (every call, reply, simulated instant and query result). Batches `world`: each evaluation is one discrete-event run of 1..3 clients (real StunAgents, one transaction model each), a server running stund.rs's logic on real library code, an attacker, UDP links (drop, duplicate, delay/reorder, corrupt, truncate, coalesce, NAT, partition/heal) and RFC 4571-framed TCP streams through real TcpBuffers (segmentation, stalls, connection cut); faults stop at a drawn quiescence time, after which every transaction must complete within its schedule; profile `calm` is the same world without network faults or attacker";
 
 fn agent_plan(profile: &'static str, quick: u64, thorough_runs: u64, thorough: bool, probes: Vec<&'static str>) -> Plan {
     let world_profile = if profile == "forgery" { "forgery" } else { "hostile" };
@@ -106,7 +106,7 @@ pub fn plan(prop: &str, thorough: bool) -> Option<Plan> {
         "C01" => codec_plan(
             "exploration",
             vec![b("wire", "hostile", 500_000, 8_000_000, thorough), b("wire", "faults", 250_000, 4_000_000, thorough), b("wire", "baseline", 80_000, 1_000_000, thorough), b("wire", "bigbuf", 4_000, 80_000, thorough)],
-            "each evaluation is one simulated delivery sequence: 1..4 messages from the library builder or the foreign peer, 0..4 wire faults each (bit/byte/burst corruption, truncation, garbage or next-message concatenation, attribute re-type/resize/duplicate/drop/swap, insertion after integrity/fingerprint, header damage), every delivery run through the full receive pipeline (MessageType/MessageHeader/Message::from_bytes, RawAttribute::from_bytes at body offsets, all 19 typed decoders, iteration, lookups, validate_integrity under two keys, check_attribute_types on requests and non-requests with drawn sets + rebuild, Display/Debug; tracing subscriber installed in 1/4 of runs) under catch_unwind and a 20 s watchdog; non-trivial = at least one fault fired or the message has attributes; distinct = distinct event-log hash",
+            "each evaluation is one simulated delivery sequence: 1..4 messages from the library builder or the foreign peer (strings up to 1100 multi-byte characters, raw attributes of 0..8 B, 255 B..4 KB or 60 KB, registered-but-unimplemented attribute types, embedded signed STUN messages, one message in 40 with 31..300 attributes), 0..4 wire faults each (bit/byte/burst corruption, checksum-preserving word tweaks, an excess of exactly 64 KiB, truncation, garbage or next-message concatenation, attribute re-type/resize/duplicate/drop/swap, insertion after integrity/fingerprint, header damage), every delivery run through the full receive pipeline (MessageType/MessageHeader/Message::from_bytes, RawAttribute::from_bytes at body offsets, all 19 typed decoders, iteration, lookups, validate_integrity under two keys, check_attribute_types on requests and non-requests with drawn sets + rebuild, Display/Debug; tracing subscriber installed in 1/4 of runs) under catch_unwind and a 20 s watchdog; non-trivial = at least one fault fired or the message has attributes; distinct = distinct event-log hash",
             vec!["probe.delivery_shorter_than_2_bytes", "probe.policing_non_request", "probe.tracing_subscriber_installed", "probe.delivery_longer_than_16bit_message", "probe.buffer_longer_than_declared_length"],
         ),
         "C02" => codec_plan(
